@@ -247,12 +247,18 @@ def batches(rng, tier):
                 note="all pairs of overflow boundary values of int and long (`ub` where the plain operator overflows)")
     r = rng.fork("st-random")
     ops = []
-    for _ in range(20000 if thorough else 3000):
+    for _ in range(200000 if thorough else 3000):
         ty = r.choice(["i32", "u32", "i64", "u64"])
         a = rand_int(r, ty)
         b = a if r.chance(1, 8) else rand_int(r, ty)
         ops.append(f"st {ty} {a} {b}")
-    ops += [f"sts u32 {a} 0 255" for a in ([0, 1, 255, 2 ** 32 - 1] if not thorough else list(range(0, 256, 5)) + [2 ** 32 - 1])]
+    ops += [f"sts u32 {a} 0 255" for a in ([0, 1, 255, 2 ** 32 - 1] if not thorough else list(range(0, 256)) + [2 ** 32 - 1])]
+    if thorough:
+        # the same 256-wide windows at the ends of the ranges (overflow on one side)
+        ops += [f"sts i32 {a} {2 ** 31 - 256} {2 ** 31 - 1}" for a in range(-128, 128)]
+        ops += [f"sts i32 {a} {-2 ** 31} {-2 ** 31 + 255}" for a in range(-128, 128)]
+        ops += [f"sts u64 {a} {2 ** 64 - 256} {2 ** 64 - 1}" for a in list(range(0, 64)) + [2 ** 64 - 1 - k for k in range(64)]]
+        ops += [f"sts i64 {a} {2 ** 63 - 256} {2 ** 63 - 1}" for a in range(-64, 64)]
     yield Batch("st-random", ops, note="random / boundary-biased operand pairs of int, unsigned, long, unsigned long")
     # ---- part (b): every ordered pair over the component domain {0,1,2}
     for ty in TYPES:
@@ -271,14 +277,14 @@ def batches(rng, tier):
     # ---- random values outside the small domain
     r = rng.fork("rel-random")
     ops = []
-    for _ in range(30000 if thorough else 5000):
+    for _ in range(300000 if thorough else 5000):
         ty = r.choice(list(TYPES))
         a = rand_value(r, ty, r.chance(2, 3))
         b = near(r, ty, a) if r.chance(1, 2) else rand_value(r, ty, r.chance(2, 3))
         if r.chance(1, 2):
             a, b = b, a
         ops.append(f"rel {ty} {enc(a)} {enc(b)}")
-    for _ in range(2000 if thorough else 300):
+    for _ in range(30000 if thorough else 300):
         ty = r.choice(list(TYPES))
         a = rand_value(r, ty, True)
         b = near(r, ty, a)
